@@ -322,6 +322,9 @@ def run(repo, chk):
             chk.expect('yield' not in ops, 'C05.G3', f'stdlib:{stub}#no-output', 'no output may follow a fault', STDLIB)
 
     _typechecker_keeps_checks(repo, chk)
+    if chk.__class__.__name__ == 'Check':
+        from .. import typecensus
+        typecensus.decide(repo, chk, 'C05.G6', {'faults kept'}, 'hidc/ast/operators.py')
     # a divisor narrowed before the division turns `b /= 256` into a division by zero (spurious fault): shared with C09.M6
     chk.rule('C05.G7', 'no spurious division fault from compound assignment: the divisor of `x /= e`, `x %= e` is e, not e narrowed to the '
                        'type of x (shared with C09.M6)')
